@@ -776,15 +776,20 @@ void config_destroy(config_t *config)
 
 void config_clear(config_t *config)
 {
-  /* Destroy the root setting (recursively) and then create a new one. */
+  /* Create the new root setting first: if this allocation fails and the fatal
+   * error function does not return (it may longjmp or, in the C++ API, throw),
+   * the configuration must not be left with a destroyed root. */
+  config_setting_t *root = __new(config_setting_t);
+  root->type = CONFIG_TYPE_GROUP;
+  root->config = config;
+
+  /* Destroy the old root setting (recursively). */
   __config_setting_destroy(config->root);
 
   libconfig_strvec_delete(config->filenames);
   config->filenames = NULL;
 
-  config->root = __new(config_setting_t);
-  config->root->type = CONFIG_TYPE_GROUP;
-  config->root->config = config;
+  config->root = root;
 }
 
 /* ------------------------------------------------------------------------- */
